@@ -2,6 +2,7 @@ import GSProofs.C20Shared
 import GSProofs.Lemmas.ConcurrentCleanSys
 import GSProofs.Lemmas.ConcurrentCleanRoot
 import GSProofs.Lemmas.ConcurrentCleanAlign
+import GSProofs.Lemmas.ConcurrentCleanLocal
 /-!
 # C20 — the cleanliness hypothesis of `shared_store_follows`, clause by clause
 
@@ -37,33 +38,25 @@ reduces `miss` to ONE statement about the END of the alone run (reports only gro
   `partial_shared_store_issue_time` with the `CleanAt` hypothesis replaced by that single clause (and
   `hdep`).
 
-## What remains (NOT proved; the full statements)
+## The full statements, and what remains
 
-    theorem alone_run_clean (st rem lts keys i root rest)
-        (hl : lts[i]? = some (root :: rest)) (hwf : Loader.WF (root :: rest)) (hroot0 : root.path = [])
-        (hne : ∀ m ∈ rest, m.path ≠ []) (hdep : ∀ m ∈ rest, m.depth ≠ 0)
-        (hdfs : PathsDFS ((root :: rest).map (·.path)))
-        (hst : ∀ c, (storeGet st c).isSome = true → c ∈ rem)
-        (σ) (hσ : ∀ a ∈ σ, a = .resp i ∨ a = .deliver i) :
-        ∀ τ, τ <+: σ → CleanAt i (Concurrent.run (initSys st rem lts keys) (.start i :: τ))
+`alone_run_clean` (below): for a well-formed link tree (`WF`, root path empty, only the root at depth 0,
+`PathsDFS` — the side conditions of `C02.complete_prefix`) and ANY local store `st ⊆ rem`, the alone run is
+`CleanAt` at every state under every schedule of the request's actions.  It is proved by cases on `st`:
+the responder lacks the root (`alone_run_clean_root_missing`), the requestor lacks it
+(`alone_run_clean_unheld_root`), the requestor holds the first `N ≥ 1` links and not the next one
+(`alone_run_clean_prefix`), the requestor holds everything (`alone_run_clean_local`, C24 `silent`).  Hence
+`shared_store_follows_wf` and `partial_shared_store_wf`: C20's open `partial_shared_store` under exactly the
+well-formedness hypotheses that `partial_shared_store_counterexample` shows to be necessary — the result
+of a request with a dedup key of its own over the shared store = its result ALONE over the store as it
+was when it was issued, for every schedule.
 
-    theorem partial_shared_store_wf : … distinct keys + the hypotheses above for request i ⇒
-        resultOf (whole system, any complete schedule) i = resultOf (i alone over its issue-time store) i
-
-    theorem alone_result_store_independent : … st ⊆ rem, st' ⊆ rem ⇒ blocksOf / missingOf / deliveredOf of the
-        complete alone run over st = those over st' (= the reference traversal `refTrav` over rem)
-
-Status of the first one: PROVED in the three regions that partition the issue-time stores `st ⊆ rem` for which
-the request goes remote — `alone_run_clean_root_missing` (responder lacks the root),
-`alone_run_clean_unheld_root` (requestor lacks the root: no local prefix), `alone_run_clean_prefix`
-(requestor holds the first `N ≥ 1` links and not the next one: the verifier's replay is spread over the
-first `N` deliveries, `message_replay`) — each with its `partial_shared_store_…` corollary.  By
-`alone_run_clean_wf_partial` the `reg` / `nofail` clauses need no case distinction.  NOT proved: the
-degenerate region in which the local store covers the WHOLE traversal (nothing is sent; C24 `silent`
-is the single-request statement), the three regions glued into the one statement above (needs `PathsDFS`
-closed under prefixes), and `alone_result_store_independent` (the delivered nodes of the clean alone run
-= the reference traversal over rem, whatever `st ⊆ rem`), hence `partial_shared_store_wf` with the SOLO
-result on the right-hand side.
+NOT proved: `alone_result_store_independent` — the RESULT (delivered nodes, missing-block errors) of the
+complete alone run is the same for every `st ⊆ rem` (= the reference traversal `refTrav` over `rem`),
+which would put the SOLO result (initial store) on the right-hand side of `partial_shared_store_wf` also
+for requests issued after the store has grown; the relation between the alone run inside the n-request
+system and the one-request system `solo` (index 0); batched deliveries (`runB`).  The delivery discipline
+is the model's: one response item per message, terminal status in a message of its own.
 -/
 namespace GS.C20
 open GS.Loader GS.Requestor GS.LinkTrack GS.Concurrent
@@ -415,6 +408,153 @@ theorem partial_shared_store_prefix (st : List (Cid × Blk)) (rem : List Cid) (l
       (issueStore_sub st rem lts keys pre hst) hl hwf hroot0 hdep hdfs hheld hmiss τ'
       (fun a ha => onlyOf_acts i post hpost a (hτ'.subset ha))) c1 c2
 
+/-- the degenerate region: the local store covers the whole traversal, nothing is sent -/
+theorem alone_run_clean_local (st : List (Cid × Blk)) (rem : List Cid) (lts : List LT) (keys : List (Option Key))
+    (i : Nat) (lt : LT)
+    (hst : ∀ c, (storeGet st c).isSome = true → c ∈ rem)
+    (hl : lts[i]? = some lt) (hcov : GS.C24.Covers st lt)
+    (τ : List Act) (hτ : ∀ a ∈ τ, a = .resp i ∨ a = .deliver i) :
+    CleanAt i (Concurrent.run (initSys st rem lts keys) (.start i :: τ)) := by
+  have hd0 : ∀ lt', lts[i]? = some lt' → ∀ m ∈ lt', m.depth = 0 → m.cid ∈ rem := by
+    intro lt' hl' m hm _
+    rw [hl] at hl'
+    cases hl'
+    exact hst m.cid (hcov m hm)
+  obtain ⟨a0, e0⟩ := AL_start_local st rem lts keys i lt hl hcov
+  have hG := (GOK_step _ (.start i) (GOK_init st rem lts keys hst)).1
+  obtain ⟨_, e1⟩ := AL_run _ i τ _ hτ hG a0 e0
+  obtain ⟨h1, h2, _⟩ := alone_run_regular st rem lts keys i hd0 τ hτ
+  exact ⟨h1, fun r w ws _ _ hc => h2 (w :: ws) w hc List.mem_cons_self, e1⟩
+
+/-- **C20.alone_run_clean** (the `CleanAt` hypothesis of `shared_store_follows`, discharged for well-formed
+    link trees).  Request `i` has the link tree `root :: rest`: well formed (`WF`: paths agree with the
+    depth structure), the root's path empty, only the root at depth 0, paths in depth-first order
+    (`PathsDFS` — the side conditions of `C02.complete_prefix`).  The responder's store `rem` holds every
+    block the requestor's store `st` holds.  Then the run of `i` ALONE over `st`, under ANY schedule `τ` of
+    its responder steps and deliveries, is `CleanAt` at every state: the request context is never
+    cancelled, a running request has been sent and has a node at its cursor, no failure status reaches
+    the running request, and — single-request completeness, C02, for ONE response item per message —
+    it never reports a block missing that the responder holds.  Whatever `st ⊆ rem` is: the responder
+    lacks the root (`alone_run_clean_root_missing`), the requestor lacks it (`…_unheld_root`), holds a
+    proper prefix of the traversal (`…_prefix`) or all of it (`…_local`). -/
+theorem alone_run_clean (st : List (Cid × Blk)) (rem : List Cid) (lts : List LT) (keys : List (Option Key))
+    (i : Nat) (root : LNode) (rest : LT)
+    (hst : ∀ c, (storeGet st c).isSome = true → c ∈ rem)
+    (hl : lts[i]? = some (root :: rest)) (hwf : Loader.WF (root :: rest))
+    (hroot0 : root.path = []) (hdep : ∀ m ∈ rest, m.depth ≠ 0)
+    (hdfs : PathsDFS ((root :: rest).map (·.path)))
+    (τ : List Act) (hτ : ∀ a ∈ τ, a = .resp i ∨ a = .deliver i) :
+    CleanAt i (Concurrent.run (initSys st rem lts keys) (.start i :: τ)) := by
+  cases hroot : storeGet st root.cid with
+  | none => exact alone_run_clean_unheld_root st rem lts keys i root rest hst hl hwf hdep hroot τ hτ
+  | some b =>
+    have hrh : holds st root.cid = true := by unfold holds; rw [hroot]; rfl
+    have hsplit : rest.takeWhile (fun m => holds st m.cid) ++ rest.dropWhile (fun m => holds st m.cid) = rest :=
+      List.takeWhile_append_dropWhile
+    have htw : ∀ m ∈ rest.takeWhile (fun m => holds st m.cid), holds st m.cid = true :=
+      fun m hm => mem_takeWhile_pos (fun m => holds st m.cid) rest m hm
+    cases hdw : rest.dropWhile (fun m => holds st m.cid) with
+    | nil =>
+      have hall := all_of_dropWhile_nil (fun m : LNode => holds st m.cid) rest hdw
+      refine alone_run_clean_local st rem lts keys i (root :: rest) hst hl ?_ τ hτ
+      intro m hm
+      rcases List.mem_cons.mp hm with rfl | hm
+      · exact hrh
+      · exact hall m hm
+    | cons n post =>
+      have hnm : holds st n.cid = false := dropWhile_head_neg (fun m : LNode => holds st m.cid) rest n post hdw
+      rw [hdw] at hsplit
+      generalize rest.takeWhile (fun m => holds st m.cid) = pre' at hsplit htw
+      subst hsplit
+      have hdfs' : PathsDFS ((root :: pre').map (·.path)) := by
+        have e : (root :: (pre' ++ n :: post)).map (·.path) = (root :: pre').map (·.path) ++ (n :: post).map (·.path) := by
+          simp
+        rw [e] at hdfs
+        exact PathsDFS.prefix _ _ hdfs
+      refine alone_run_clean_prefix st rem lts keys i root pre' n post hst hl hwf hroot0 hdep hdfs' ?_ hnm τ hτ
+      intro m hm
+      rcases List.mem_cons.mp hm with rfl | hm
+      · exact hrh
+      · exact htw m hm
+
+/-- **C20.shared_store_follows_wf** (`shared_store_follows` for well-formed link trees, NO cleanliness
+    hypothesis).  Any number of requests over one shared store ⊆ responder store; request `i` carries a
+    dedup key nobody else carries and has a well-formed link tree (`WF`, root path empty, only the root at
+    depth 0, `PathsDFS`).  Under EVERY schedule `pre ++ start i :: post` it goes — up to the store contents —
+    through exactly the run it goes through ALONE over the store as it was when it was issued: same
+    reports in the same order, same termination, same messages and responder cursor; every block the
+    alone run stores is in the shared store. -/
+theorem shared_store_follows_wf (st : List (Cid × Blk)) (rem : List Cid) (lts : List LT) (keys : List (Option Key))
+    (i : Nat) (k : Key) (pre post : List Act) (root : LNode) (rest : LT)
+    (hst : ∀ c, (storeGet st c).isSome = true → c ∈ rem)
+    (hk : keys.getD i none = some k) (hothers : ∀ j, j ≠ i → keys.getD j none ≠ some k)
+    (hpre : ∀ a ∈ pre, Act.idx a ≠ i) (hpost : ∀ a ∈ post, a ≠ .start i)
+    (hl : lts[i]? = some (root :: rest)) (hwf : Loader.WF (root :: rest))
+    (hroot0 : root.path = []) (hdep : ∀ m ∈ rest, m.depth ≠ 0)
+    (hdfs : PathsDFS ((root :: rest).map (·.path))) :
+    let A := Concurrent.run (initSys st rem lts keys) (pre ++ .start i :: post)
+    let B := Concurrent.run (initSys (issueStore st rem lts keys pre) rem lts keys) (.start i :: onlyOf i post)
+    A.evs.getD i [] = B.evs.getD i [] ∧ resultOf A i = resultOf B i ∧ finished A i = finished B i ∧
+    A.chan[i]? = B.chan[i]? ∧ A.resp[i]? = B.resp[i]? ∧
+    (∀ c, (storeGet B.store c).isSome = true → (storeGet A.store c).isSome = true) :=
+  shared_store_follows st rem lts keys i k pre post hst hk hothers hpre hpost
+    (fun τ' hτ' => alone_run_clean (issueStore st rem lts keys pre) rem lts keys i root rest
+      (issueStore_sub st rem lts keys pre hst) hl hwf hroot0 hdep hdfs τ'
+      (fun a ha => onlyOf_acts i post hpost a (hτ'.subset ha)))
+
+/-- **C20.partial_shared_store_wf** (`partial_shared_store` — the statement left open at the end of
+    `C20.lean` — under the well-formedness hypotheses its counterexample `partial_shared_store_counterexample`
+    shows to be necessary).  Distinct dedup keys over the SHARED default store ⊆ responder store, request
+    `i`'s link tree well formed (`WF`, root path empty, only the root at depth 0, `PathsDFS`).  ANY schedule
+    of the whole system that issues request `i` once and is complete for it gives `i` the same delivered
+    nodes, the same missing-block errors and the same termination as ANY complete schedule of `i` ALONE
+    over the store as it was when `i` was issued — whatever the other requests do and store meanwhile.
+    No cleanliness or completeness hypothesis. -/
+theorem partial_shared_store_wf (st : List (Cid × Blk)) (rem : List Cid) (lts : List LT) (keys : List (Option Key))
+    (i : Nat) (k : Key) (pre post τ : List Act) (root : LNode) (rest : LT)
+    (hst : ∀ c, (storeGet st c).isSome = true → c ∈ rem)
+    (hk : keys.getD i none = some k) (hothers : ∀ j, j ≠ i → keys.getD j none ≠ some k)
+    (hpre : ∀ a ∈ pre, Act.idx a ≠ i) (hpost : ∀ a ∈ post, a ≠ .start i)
+    (hτ : ∀ a ∈ τ, a = .resp i ∨ a = .deliver i)
+    (hl : lts[i]? = some (root :: rest)) (hwf : Loader.WF (root :: rest))
+    (hroot0 : root.path = []) (hdep : ∀ m ∈ rest, m.depth ≠ 0)
+    (hdfs : PathsDFS ((root :: rest).map (·.path)))
+    (c1 : Complete i (Concurrent.run (initSys st rem lts keys) (pre ++ .start i :: post)))
+    (c2 : Complete i (Concurrent.run (initSys (issueStore st rem lts keys pre) rem lts keys) (.start i :: τ))) :
+    resultOf (Concurrent.run (initSys st rem lts keys) (pre ++ .start i :: post)) i
+      = resultOf (Concurrent.run (initSys (issueStore st rem lts keys pre) rem lts keys) (.start i :: τ)) i ∧
+    finished (Concurrent.run (initSys st rem lts keys) (pre ++ .start i :: post)) i
+      = finished (Concurrent.run (initSys (issueStore st rem lts keys pre) rem lts keys) (.start i :: τ)) i :=
+  partial_shared_store_issue_time st rem lts keys i k pre post τ hst hk hothers hpre hpost hτ
+    (fun τ' hτ' => alone_run_clean (issueStore st rem lts keys pre) rem lts keys i root rest
+      (issueStore_sub st rem lts keys pre hst) hl hwf hroot0 hdep hdfs τ'
+      (fun a ha => onlyOf_acts i post hpost a (hτ'.subset ha))) c1 c2
+
+/-- **C20.partial_shared_store_first_wf.**  The request issued while the shared store still has its
+    initial contents (in particular the first request issued — the others are issued, run and store
+    blocks at any time afterwards): its result under every schedule of the whole system that is complete
+    for it = its result under every complete schedule of it ALONE between the same two stores.  Well-formed
+    link tree, no further hypothesis. -/
+theorem partial_shared_store_first_wf (st : List (Cid × Blk)) (rem : List Cid) (lts : List LT) (keys : List (Option Key))
+    (i : Nat) (k : Key) (pre post τ : List Act) (root : LNode) (rest : LT)
+    (hst : ∀ c, (storeGet st c).isSome = true → c ∈ rem)
+    (hk : keys.getD i none = some k) (hothers : ∀ j, j ≠ i → keys.getD j none ≠ some k)
+    (hpre : ∀ a ∈ pre, Act.idx a ≠ i) (hpost : ∀ a ∈ post, a ≠ .start i)
+    (hτ : ∀ a ∈ τ, a = .resp i ∨ a = .deliver i)
+    (hS0 : issueStore st rem lts keys pre = st)
+    (hl : lts[i]? = some (root :: rest)) (hwf : Loader.WF (root :: rest))
+    (hroot0 : root.path = []) (hdep : ∀ m ∈ rest, m.depth ≠ 0)
+    (hdfs : PathsDFS ((root :: rest).map (·.path)))
+    (c1 : Complete i (Concurrent.run (initSys st rem lts keys) (pre ++ .start i :: post)))
+    (c2 : Complete i (Concurrent.run (initSys st rem lts keys) (.start i :: τ))) :
+    resultOf (Concurrent.run (initSys st rem lts keys) (pre ++ .start i :: post)) i
+      = resultOf (Concurrent.run (initSys st rem lts keys) (.start i :: τ)) i ∧
+    finished (Concurrent.run (initSys st rem lts keys) (pre ++ .start i :: post)) i
+      = finished (Concurrent.run (initSys st rem lts keys) (.start i :: τ)) i :=
+  partial_shared_store_first st rem lts keys i k pre post τ hst hk hothers hpre hpost hτ hS0
+    (fun τ' hτ' => alone_run_clean st rem lts keys i root rest hst hl hwf hroot0 hdep hdfs τ'
+      (fun a ha => onlyOf_acts i post hpost a (hτ'.subset ha))) c1 c2
+
 /-! ## non-vacuity (test of concrete values)
 
 The system of the example at the end of `C20Shared.lean` (two requests for the DAG 7 -> 3, distinct keys,
@@ -465,6 +605,15 @@ example :
     resultOf (Concurrent.run (initSys [] [7, 3] [exLT, exLT] [some 1, some 2]) (shPre ++ .start 1 :: shPost)) 1
       = ([(7, []), (3, [0])], [], 2) := by
   refine ⟨?_, by decide, by decide, by decide, by decide, by decide, by decide⟩
+  simp only [exLT, Loader.WF, subOf, skipSub]
+  decide
+
+/-- `alone_run_clean` / `partial_shared_store_wf`: the hypotheses on the link tree hold of `exLT` (and fail of
+    `badLT`, the tree of `partial_shared_store_counterexample`: its paths are not in depth-first order) -/
+example :
+    Loader.WF exLT ∧ (exLT.head?.map (·.path)) = some [] ∧ (∀ m ∈ exLT.tail, m.depth ≠ 0) ∧
+    PathsDFS (exLT.map (·.path)) ∧ ¬ PathsDFS (badLT.map (·.path)) := by
+  refine ⟨?_, by decide, by decide, by decide, by decide⟩
   simp only [exLT, Loader.WF, subOf, skipSub]
   decide
 
